@@ -5,6 +5,7 @@ import math
 
 import numpy as np
 
+import c09_order
 import c09_scale
 import tracker_impl as ti
 from coqbridge import fl
@@ -22,7 +23,11 @@ RULE = ("Single steps of the real Tracker.update on a real ROMS.Grid built from 
         "only): one exact step of 1000 ... 130000 particles (sizes straddling powers of two), a grid of more than 2^16 "
         "cells with a subgrid, histories of 9000-70000 particles with removal and release, lives of more than 1000 steps "
         "with identifiers beyond the size of the state, and one whole simulation through ladim.main.main with 27000 "
-        "particles and >250000 stored instances; every clause decided for every particle with numpy.")
+        "particles and >250000 stored instances; every clause decided for every particle with numpy. "
+        "Next, always present: arrangement cases (c09_order.py, oracle only): one small lon/lat scenario with an island run through "
+        "ladim.main.main with the release columns in other orders (header line or names), rows of one release time permuted, "
+        "other spellings of times and numbers, configuration keys reversed, forcing as f4 / packed / variables reversed / three files "
+        "with their own time units; every instance of every record decided, and every arrangement equal to the usual one.")
 TRUSTED = ["Coq 8.16.1 kernel + vm_compute", "hand-written model coq/Model/Tracker.v (move, ingrid, atsea) tied by this correspondence",
            "numpy round() = round half to even (modelled as qround)", "netCDF4 for the synthetic grid files"]
 ASSUMPTIONS = ["released particles start in sea cells of the valid region (the property's quantifier)",
@@ -33,6 +38,7 @@ DT, DX = 512.0, 1024.0
 def gen_cases(ctx):
     rng = ctx.rng
     out = c09_scale.gen_scale_cases(ctx)  # deterministic, draws nothing from ctx.rng
+    out += c09_order.gen_order_cases(ctx)  # deterministic arrangement cases (orders / names / spellings), draw nothing either
     out += [{"k": "warmdead", "adv": "RK2"}, {"k": "bulkrecords", "n": 3005, "dead": [3000, 3001, 3002, 3003, 3004]},
            {"k": "bulkrecords", "n": 120000, "dead": [17, 60000]}]
     n = 120 if ctx.quick else 1500
@@ -74,6 +80,10 @@ def gen_cases(ctx):
         if parts:
             out.append({"k": "move", "imax": imax, "jmax": jmax, "mask": ["".join(map(str, r)) for r in M.tolist()],
                         "subgrid": sub, "parts": parts})
+            # every fourth case hands the alive / active flags over as 0 / 1 integers: that is how an `active` (or `alive`)
+            # column of a release file, spelled 0 / 1, reaches State.append (pandas reads it as int64)
+            if len([c for c in out if c.get("k") == "move"]) % 4 == 0:
+                out[-1]["flags"] = "int"
     for _ in range(12 if ctx.quick else 150):
         jmax, imax = rng.randint(8, 14), rng.randint(8, 16)
         M = ti.random_mask(rng, jmax, imax)
@@ -121,6 +131,8 @@ def in_valid(x, y, lim):
 def eval_case(desc, ctx):
     if desc["k"].startswith("scale"):
         return c09_scale.eval_scale(desc, ctx)
+    if desc["k"] == "order":
+        return c09_order.eval_order(desc, ctx)
     if desc["k"] == "warmdead":
         # "a dead particle appears in no later record", across a warm start (oracle only): the particle killed in the
         # first leg must not come back — under its identifier — in the files of the restarted run
@@ -191,7 +203,8 @@ def eval_case(desc, ctx):
     U = np.array([p[5] for p in P], dtype=float); V = np.array([p[6] for p in P], dtype=float)
     forcing = ti.StubForcing(U=U, V=V)
     tr, st, _ = ti.make_tracker(grid, forcing, DT, "EF")
-    st.append(X=X, Y=Y, Z=5.0, alive=np.array([p[2] for p in P]), active=np.array([p[3] for p in P]))
+    ftype = np.int64 if desc.get("flags") == "int" else bool
+    st.append(X=X, Y=Y, Z=5.0, alive=np.array([p[2] for p in P], dtype=ftype), active=np.array([p[3] for p in P], dtype=ftype))
     with np.errstate(all="ignore"):
         tr.update()
     oX, oY, oal, oac = st.X.tolist(), st.Y.tolist(), st.alive.tolist(), st.active.tolist()
